@@ -71,27 +71,53 @@ def _eval_shape(term, leaves):
     return _h256(_eval_shape(term[0], leaves) + _eval_shape(term[1], leaves))
 
 
-def _stage_a_merkle(ctx):
-    r = vlib.tlc_ok("MC_Merkle", "MC_Merkle_64.cfg", workers=4, coverage=True, timeout=1200)
-    ctx.stage_a("MC_Merkle_64.cfg", r, constants="MaxN=64 Promote=FALSE H=free term",
+def _par(jobs):
+    """Run independent TLC jobs concurrently; {name: result}."""
+    from concurrent.futures import ThreadPoolExecutor
+
+    with ThreadPoolExecutor(max_workers=len(jobs)) as ex:
+        futs = {k: ex.submit(f) for k, f in jobs.items()}
+        return {k: f.result() for k, f in futs.items()}
+
+
+def _gen_rows(module, consts, native, tag):
+    os.makedirs(vlib.WORK, exist_ok=True)
+    out = os.path.join(vlib.WORK, f"{tag}_rows.json")
+    cfg = os.path.join(vlib.WORK, f"{tag}.cfg")
+    with open(cfg, "w") as fh:
+        fh.write(consts)
+    r = vlib.tlc(module, cfg, native=native, env={"OUT_FILE": out}, timeout=1500)
+    if not r.completed or not os.path.exists(out):
+        raise vlib.MachineryFailure(f"{module} failed:\n" + r.error_text())
+    rows = json.load(open(out))
+    os.remove(out)
+    return rows
+
+
+def _launch_models(ctx):
+    dense = 400 if ctx.tier == "quick" else 20000
+    return _par({
+        "merkle": lambda: vlib.tlc_ok("MC_Merkle", "MC_Merkle_64.cfg", workers=2, coverage=True, timeout=1200),
+        "merkle_dev": lambda: vlib.tlc("MC_Merkle", "MC_Merkle_64_promote.cfg", workers=1, timeout=600),
+        "coinbase": lambda: vlib.tlc_ok("MC_Coinbase", "MC_Coinbase_q.cfg", workers=8, timeout=1800),
+        "coinbase_dev": lambda: vlib.tlc("MC_Coinbase", "MC_Coinbase_bug.cfg", workers=2, timeout=600),
+        "block": lambda: vlib.tlc_ok("MC_Block", "MC_Block_3.cfg", workers=4, timeout=1800),
+        "block_dev": lambda: vlib.tlc("MC_Block", "MC_Block_3_wrongid.cfg", workers=2, timeout=600),
+        "gen_merkle": lambda: _gen_rows("Gen_Merkle", "CONSTANTS MaxN = 300\n", False, "gmk"),
+        "gen_coinbase": lambda: _gen_rows("Gen_Coinbase", f"CONSTANTS Dense = {dense}\n", True, "gcb"),
+    }), dense
+
+
+def _stage_a_merkle(ctx, res):
+    ctx.stage_a("MC_Merkle_64.cfg", res["merkle"], constants="MaxN=64 Promote=FALSE H=free term",
                 coverage_required=("LevelEven", "LevelOddLeaves", "LevelOddAbove", "Done"))
     # vacuity guard: with the named deviation TLC must find the counterexample
-    r = vlib.tlc("MC_Merkle", "MC_Merkle_64_promote.cfg", workers=1, timeout=600)
+    r = res["merkle_dev"]
     if r.completed or r.invariant not in ("RowIsRec", "RootIsRec"):
         raise vlib.MachineryFailure("MC_Merkle self-test: the promote deviation was not caught:\n" + r.error_text())
 
 
-def _stage_b_merkle(ctx):
-    os.makedirs(vlib.WORK, exist_ok=True)
-    out = os.path.join(vlib.WORK, "merkle_rows.json")
-    cfg = os.path.join(vlib.WORK, "Gen_Merkle.cfg")
-    with open(cfg, "w") as fh:
-        fh.write("CONSTANTS MaxN = 300\n")
-    r = vlib.tlc("Gen_Merkle", cfg, env={"OUT_FILE": out}, timeout=900)
-    if not r.completed or not os.path.exists(out):
-        raise vlib.MachineryFailure("Gen_Merkle failed:\n" + r.error_text())
-    rows = json.load(open(out))
-    os.remove(out)
+def _stage_b_merkle(ctx, rows):
     if [row["n"] for row in rows] != list(range(1, 301)):
         raise vlib.MachineryFailure("Gen_Merkle: rows are not N = 1..300")
     for row in rows:
@@ -117,7 +143,9 @@ def _merkle_events(ctx):
     rnd = random.Random(ctx.seed * 1000003 + 15)
     quick = ctx.tier == "quick"
     ns = set(range(1, 65 if quick else 301))
-    ns |= {65, 96, 97, 127, 128, 129, 255, 256, 257, 300, 511, 512, 513, 1023, 1024, 1025, 1536, 1537, 2047, 2048}
+    ns |= {65, 129, 257, 300, 513, 1024, 1025, 2047, 2048}
+    if not quick:
+        ns |= {96, 97, 127, 128, 255, 256, 511, 512, 1023, 1536, 1537}
     for _ in range(6 if quick else 150):
         ns.add(rnd.randrange(1, 2049))
     evs = []
@@ -216,12 +244,11 @@ def _cb_class(e):
     return c
 
 
-def _stage_a_coinbase(ctx):
-    r = vlib.tlc_ok("MC_Coinbase", "MC_Coinbase_q.cfg", workers=16, timeout=1800)
-    ctx.stage_a("MC_Coinbase_q.cfg", r,
+def _stage_a_coinbase(ctx, res):
+    ctx.stage_a("MC_Coinbase_q.cfg", res["coinbase"],
                 constants="heights 0..70000 (+-1 around 16/127/255/32767/65535/2^23/2^24/2^30, 2^31-1), intervals 150/210000, "
                           "subsidy base 50e8/64; 71 height chunks x {push, subsidy} + layout table")
-    r = vlib.tlc("MC_Coinbase", "MC_Coinbase_bug.cfg", workers=4, timeout=600)
+    r = res["coinbase_dev"]
     if r.completed or r.invariant != "HeightPushCorrect":
         raise vlib.MachineryFailure("MC_Coinbase self-test: the missing-sign-byte deviation was not caught:\n" + r.error_text())
 
@@ -241,18 +268,7 @@ def _proj_cbtx(raw):
         return None
 
 
-def _stage_b_coinbase(ctx):
-    os.makedirs(vlib.WORK, exist_ok=True)
-    out = os.path.join(vlib.WORK, "cb_rows.json")
-    cfg = os.path.join(vlib.WORK, "Gen_Coinbase.cfg")
-    dense = 400 if ctx.tier == "quick" else 20000
-    with open(cfg, "w") as fh:
-        fh.write(f"CONSTANTS Dense = {dense}\n")
-    r = vlib.tlc("Gen_Coinbase", cfg, native=True, env={"OUT_FILE": out}, timeout=1200)
-    if not r.completed or not os.path.exists(out):
-        raise vlib.MachineryFailure("Gen_Coinbase failed:\n" + r.error_text())
-    rows = json.load(open(out))
-    os.remove(out)
+def _stage_b_coinbase(ctx, rows, dense):
     n = 0
     for row in rows:
         h = row["h"]
@@ -432,6 +448,356 @@ def _run_coinbase(ctx, evs, selftest=True):
                     "result_hex": bytes(s["got"]["r"]).hex()[:160]})
 
 
+# ----------------------------------------------------------------------------- blocks
+GENESIS_BLOCK_HEX = (      # published constant (Bitcoin mainnet block 0)
+    "0100000000000000000000000000000000000000000000000000000000000000000000003ba3edfd7a7b12b27ac72c3e67768f617fc81bc3888a51323a9fb8aa"
+    "4b1e5e4a29ab5f49ffff001d1dac2b7c0101000000010000000000000000000000000000000000000000000000000000000000000000ffffffff4d04ffff001d"
+    "0104455468652054696d65732030332f4a616e2f32303039204368616e63656c6c6f72206f6e206272696e6b206f66207365636f6e64206261696c6f75742066"
+    "6f722062616e6b73ffffffff0100f2052a01000000434104678afdb0fe5548271967f1a67130b7105cd6a828e03909a67962e0ea1f61deb649f6bc3f4cef38c4"
+    "f35504e51ec112de5c384df7ba0b8d578a4c702b6bf11d5fac00000000")
+GENESIS_HASH_RPC = "000000000019d6689c085ae165831e934ff763ae46a2a6c172b3f1b60a8ce26f"
+GENESIS_MERKLE_RPC = "4a5e1e4baab89f3a32518a88c31bc87f618f76673e2cc77ab2127b7afdeda33b"
+
+
+def _cs(n):                       # input construction
+    if n < 253:
+        return bytes([n])
+    if n < 0x10000:
+        return b"\xfd" + n.to_bytes(2, "little")
+    return b"\xfe" + n.to_bytes(4, "little")
+
+
+def _gen_tx(rnd, kind):
+    """A random transaction (input construction).  kind: legacy | segwit | f7 (segwit, non-default sequence) |
+    f8 (segwit with an empty witness stack) | f9 (witness item >= 253 bytes).  Returns (raw bytes, class)."""
+    n_in, n_out = rnd.choice([1, 1, 2, 3, 4]), rnd.choice([1, 1, 2, 3, 4])
+    segwit = kind != "legacy"
+    version = rnd.choice([1, 2, 2, rnd.randrange(2 ** 32)]).to_bytes(4, "little")
+    locktime = rnd.choice([0, 0, 499999999, 500000000, rnd.randrange(2 ** 32)]).to_bytes(4, "little")
+    ins, wits = b"", b""
+    for i in range(n_in):
+        ss = bytes(rnd.randrange(256) for _ in range(rnd.choice([0, 0, 23, 72, 107, 110]) if not segwit else rnd.choice([0, 0, 23])))
+        seq = b"\xff\xff\xff\xff"
+        if kind in ("legacy", "f7") and (kind == "f7" or rnd.random() < .5):
+            seq = rnd.choice([0xFFFFFFFE, 0xFFFFFFFD, 0, 1, rnd.randrange(2 ** 32)]).to_bytes(4, "little")
+        ins += bytes(rnd.randrange(256) for _ in range(32)) + rnd.choice([0, 1, 7, 300]).to_bytes(4, "little") + _cs(len(ss)) + ss + seq
+        if segwit:
+            items = [bytes(rnd.randrange(256) for _ in range(rnd.choice([0, 1, 32, 33, 71, 72, 105, 252])))
+                     for _ in range(rnd.choice([1, 2, 2, 3, 5]))]
+            if kind == "f8" and i == n_in - 1 and n_in > 1:
+                items = []
+            if kind == "f9" and i == 0:
+                items[0] = bytes(rnd.randrange(256) for _ in range(rnd.choice([253, 254, 255, 256, 300, 520])))
+            wits += _cs(len(items)) + b"".join(_cs(len(x)) + x for x in items)
+    if kind == "f8" and n_in == 1:          # one input: make it two so that one stack can be empty
+        ss = b""
+        ins += bytes(rnd.randrange(256) for _ in range(32)) + (0).to_bytes(4, "little") + _cs(0) + b"\xff\xff\xff\xff"
+        n_in = 2
+        wits += _cs(0)
+    outs = b""
+    for _ in range(n_out):
+        spk = bytes(rnd.randrange(256) for _ in range(rnd.choice([0, 22, 23, 25, 34, 35, 67])))
+        outs += rnd.choice([0, 546, 10 ** 8, 21 * 10 ** 14, rnd.randrange(21 * 10 ** 14)]).to_bytes(8, "little") + _cs(len(spk)) + spk
+    core = _cs(n_in) + ins + _cs(n_out) + outs
+    raw = version + (b"\x00\x01" if segwit else b"") + core + (wits if segwit else b"") + locktime
+    return raw, kind
+
+
+def _hdr_fields(rnd):
+    def u32():
+        return rnd.choice([0, 1, 2, 4, 0x20000000, 0x7FFFFFFF, 0x80000000, 0xFFFFFFFF, rnd.randrange(2 ** 32)])
+    return {"version": J(u32().to_bytes(4, "little")), "prev": [rnd.randrange(256) for _ in range(32)],
+            "merkle": [rnd.randrange(256) for _ in range(32)], "time": J(u32().to_bytes(4, "little")),
+            "bits": J(rnd.choice([0x1D00FFFF, 0x207FFFFF, rnd.randrange(2 ** 32)]).to_bytes(4, "little")),
+            "nonce": J(u32().to_bytes(4, "little"))}
+
+
+def _call_header(f):
+    import bits.blockchain as bc
+
+    res = run_call(bc.block_header, int.from_bytes(bytes(f["version"]), "little"), bytes(f["prev"]), bytes(f["merkle"]),
+                   int.from_bytes(bytes(f["time"]), "little"), bytes(f["bits"]), int.from_bytes(bytes(f["nonce"]), "little"))
+    if "ok" in res and isinstance(res["ok"], (bytes, bytearray)):
+        return {"ok": True, "r": J(res["ok"])}
+    return {"ok": False, "r": [], "exc": res.get("err", "non-bytes")}
+
+
+def _proj_header(d):
+    """block_header_deser / block_deser dict -> header fields as wire bytes; unprojectable values become []."""
+    def le4(x):
+        return J(x.to_bytes(4, "little")) if isinstance(x, int) and 0 <= x < 2 ** 32 else []
+
+    def hx(x, n):
+        try:
+            b = bytes.fromhex(x)
+            return J(b) if len(b) == n else []
+        except (TypeError, ValueError):
+            return []
+    return {"version": le4(d.get("version")), "prev": hx(d.get("prev_blockheaderhash"), 32), "merkle": hx(d.get("merkle_root_hash"), 32),
+            "time": le4(d.get("nTime")), "bits": hx(d.get("nBits"), 4), "nonce": le4(d.get("nNonce"))}
+
+
+EMPTY_F = {"version": [], "prev": [], "merkle": [], "time": [], "bits": [], "nonce": []}
+
+
+def _call_hdrdeser(b):
+    import bits.blockchain as bc
+
+    res = run_call(bc.block_header_deser, bytes(b))
+    if "ok" in res and isinstance(res["ok"], dict):
+        return {"ok": True, "f": _proj_header(res["ok"])}
+    return {"ok": False, "f": EMPTY_F, "exc": res.get("err", "non-dict")}
+
+
+def _call_blockser(hdr, raws):
+    import bits.blockchain as bc
+
+    res = run_call(bc.block_ser, bytes(hdr), [bytes(r) for r in raws])
+    if "ok" in res and isinstance(res["ok"], (bytes, bytearray)):
+        return {"ok": True, "r": J(res["ok"])}
+    return {"ok": False, "r": [], "exc": res.get("err", "non-bytes")}
+
+
+def _call_blockdeser(b):
+    import bits.blockchain as bc
+
+    res = run_call(bc.block_deser, bytes(b))
+    if "ok" in res and isinstance(res["ok"], dict):
+        d = res["ok"]
+        txs = []
+        for t in d.get("txns", []):
+            try:
+                txs.append({"raw": J(bytes.fromhex(t["raw"])), "txid": J(bytes.fromhex(t["txid"]))})
+            except (KeyError, TypeError, ValueError):
+                txs.append({"raw": [], "txid": []})
+        return {"ok": True, "f": _proj_header(d), "txs": txs}
+    return {"ok": False, "f": EMPTY_F, "txs": [], "exc": res.get("err", "non-dict")}
+
+
+def _block_events(ctx):
+    rnd = random.Random(ctx.seed * 104729 + 1503)
+    quick = ctx.tier == "quick"
+    evs = []
+    for _ in range(12 if quick else 400):
+        evs.append({"op": "hdr", "f": _hdr_fields(rnd)})
+    sizes = [1, 1, 2, 2, 3, 4, 5, 8, 13, 21, 34, 50] if quick else ([1, 2, 3, 4, 5, 6, 7, 8, 9, 10, 16, 25, 33, 49, 50] * 8 + list(range(1, 51)))
+    for n in sizes:
+        kinds = rnd.choice([["legacy"], ["segwit"], ["legacy", "segwit"], ["legacy", "segwit"], ["legacy", "segwit"]])
+        special = rnd.choice([None, None, None, "f6", "f7", "f8", "f9"]) if n > 1 or rnd.random() < .3 else None
+        txs = [_gen_tx(rnd, rnd.choice(kinds)) for _ in range(n)]
+        if special in ("f7", "f8", "f9"):
+            txs[rnd.randrange(n)] = _gen_tx(rnd, special)
+        elif special == "f6" and n >= 2:
+            k = rnd.randrange(n - 1)
+            txs[k + 1] = txs[k]                              # the same transaction twice in a row
+        elif special == "f6":
+            special = None
+        evs.append({"op": "block", "f": _hdr_fields(rnd), "raws": [J(t[0]) for t in txs], "kinds": [t[1] for t in txs],
+                    "special": special})
+    return evs
+
+
+def _block_class(e):
+    kinds = e.get("kinds", [])
+    return {"n_txs": len(e.get("raws", [])), "has_segwit": any(k != "legacy" for k in kinds),
+            "f6_duplicate_adjacent_tx": e.get("special") == "f6", "f7_segwit_nondefault_sequence": "f7" in kinds,
+            "f8_empty_witness_stack": "f8" in kinds, "f9_witness_item_ge_253": "f9" in kinds}
+
+
+def _genesis_event():
+    raw = bytes.fromhex(GENESIS_BLOCK_HEX)
+    if _h256(raw[:80])[::-1].hex() != GENESIS_HASH_RPC:
+        raise vlib.MachineryFailure("embedded genesis block constant is corrupt")
+    return {"op": "genesis", "block": J(raw), "hash": J(bytes.fromhex(GENESIS_HASH_RPC)[::-1]),
+            "merkle": J(bytes.fromhex(GENESIS_MERKLE_RPC)[::-1])}
+
+
+def _stage_a_block(ctx, res):
+    r = res["block"]
+    # vacuity guard: every one of the 2 x (5 + 25 + 125) machines ran Header, Count and one step per transaction to Done
+    if r.distinct != 2 * (5 * 4 + 25 * 5 + 125 * 6):
+        raise vlib.MachineryFailure(f"MC_Block: {r.distinct} distinct states, expected 1790 (machines did not all run to Done)")
+    ctx.stage_a("MC_Block_3.cfg", r, constants="2 headers x every sequence of 1..3 transactions over a pool of 5 (legacy/segwit, "
+                                               "1..2 inputs, 0..2 outputs, empty/non-empty scripts and witness stacks)")
+    r = res["block_dev"]
+    if r.completed or r.invariant != "RoundTrip":
+        raise vlib.MachineryFailure("MC_Block self-test: id-over-raw-bytes deviation was not caught:\n" + r.error_text())
+
+
+def _run_block(ctx, evs, selftest=True, mined=()):
+    import bits.blockchain as bc
+
+    events, meta = [], []
+
+    def add(ev, m):
+        ev["id"] = len(events)
+        events.append(ev)
+        meta.append(m)
+
+    for e in evs:
+        if e["op"] == "hdr":
+            got = _call_header(e["f"])
+            add({"op": "hdr", "f": e["f"], "ok": got["ok"], "r": got["r"]}, (e, "hdr", got))
+            wire = J(b"".join(bytes(e["f"][k]) for k in ("version", "prev", "merkle", "time", "bits", "nonce")))
+            got2 = _call_hdrdeser(wire)
+            add({"op": "hdrdeser", "b": wire, "ok": got2["ok"], "f": got2["f"]}, (e, "hdrdeser", got2))
+        elif e["op"] == "block":
+            hdr = J(b"".join(bytes(e["f"][k]) for k in ("version", "prev", "merkle", "time", "bits", "nonce")))
+            got = _call_blockser(hdr, e["raws"])
+            add({"op": "blockser", "hdr": hdr, "raws": e["raws"], "ok": got["ok"], "r": got["r"]}, (e, "blockser", got))
+            # the block handed to block_deser is assembled by the harness from the same parts (so that a block_ser defect
+            # does not mask block_deser) - plain concatenation, judged against BlockDeser by TLC
+            blk = J(bytes(hdr) + _cs(len(e["raws"])) + b"".join(bytes(r) for r in e["raws"]))
+            got2 = _call_blockdeser(blk)
+            add({"op": "blockdeser", "b": blk, "ok": got2["ok"], "f": got2["f"], "txs": got2["txs"]}, (e, "blockdeser", got2))
+    n_real = len(events)
+    extra = []
+    if selftest:
+        g = _genesis_event()
+        extra.append(dict(g, id=n_real))                                              # spec self-test (published constant)
+        bad = dict(g, id=n_real + 1)
+        bad["hash"] = [g["hash"][0] ^ 1] + g["hash"][1:]
+        extra.append(bad)
+        res = run_call(bc.genesis_block)                                               # the code's own genesis block
+        okd = [ev for ev in events if ev["op"] == "blockdeser" and ev["ok"] and ev["txs"]][:3]
+        for k, ev in enumerate(okd):                                                  # binding self-test
+            m_ = json.loads(json.dumps(ev))
+            m_["id"] = n_real + len(extra)
+            if k % 3 == 0:
+                m_["txs"][-1]["txid"][0] ^= 1
+            elif k % 3 == 1:
+                m_["txs"][0]["raw"][-1] ^= 1
+            else:
+                m_["f"]["nonce"] = [m_["f"]["nonce"][0] ^ 1] + m_["f"]["nonce"][1:] if m_["f"]["nonce"] else [1, 0, 0, 0]
+            extra.append(m_)
+        okh = [ev for ev in events if ev["op"] == "hdr" and ev["ok"]][:1]
+        for ev in okh:
+            m_ = json.loads(json.dumps(ev))
+            m_["id"] = n_real + len(extra)
+            m_["r"][40] ^= 1
+            extra.append(m_)
+    mined_evs = []
+    for me in mined:
+        ev = dict(me["event"], id=n_real + len(extra) + len(mined_evs))
+        mined_evs.append(ev)
+    allev = events + extra + mined_evs
+    verdicts, stats = vlib.validate_events("Trace_Block", allev, chunk=max(4, len(allev) // 16 + 1), jobs=16, tag="blk", timeout=3000)
+    if selftest:
+        if verdicts[n_real] != "ok":
+            raise vlib.MachineryFailure(f"Block spec self-test: the published genesis block is refused: {verdicts[n_real]}")
+        wrong = [x["id"] for x in extra[1:] if verdicts[x["id"]] == "ok"]
+        if wrong or len(extra) < 3:
+            raise vlib.MachineryFailure(f"Block binding self-test: corrupted events accepted: {wrong}")
+        if "ok" in res and isinstance(res["ok"], (bytes, bytearray)) and bytes(res["ok"]) != bytes.fromhex(GENESIS_BLOCK_HEX):
+            ctx.violation("genesis-block-bytes", {"stage": "C", "op": "genesis_block", "got_hex": bytes(res["ok"]).hex()})
+    for i in range(n_real):
+        e, kind, got = meta[i]
+        v = verdicts[i]
+        cls = _block_class(e)
+        if cls["n_txs"] >= 2 or cls["has_segwit"]:
+            ctx.nontrivial(("C", kind, bytes(events[i].get("b", events[i].get("r", [])))[:200]))
+        if v != "ok":
+            case = {"stage": "C", "op": e["op"], "call": kind, **cls, "f": e["f"], "exc": got.get("exc")}
+            if e["op"] == "block":
+                case.update(raws=e["raws"], kinds=e["kinds"], special=e["special"])
+                if kind == "blockdeser" and got["ok"]:
+                    case["first_bad_tx"] = next((k for k, t in enumerate(got["txs"]) if k >= len(e["raws"]) or t["raw"] != e["raws"][k]), None)
+            ctx.violation(v, case)
+    for me, ev in zip(mined, mined_evs):
+        v = verdicts[ev["id"]]
+        ctx.nontrivial(("C", "mined", me["case"]["height"], me["case"]["regtest"], len(me["case"]["mempool"])))
+        if v != "ok":
+            ctx.violation(v, dict(me["case"], stage="C", op="mined", exc=me.get("exc")))
+    ctx.stage_c("Trace_Block", n_real + len(mined_evs), stats, mined_blocks=len(mined_evs))
+    b = next((events[i] for i in range(n_real) if events[i]["op"] == "blockdeser" and events[i]["ok"]), None)
+    if b:
+        ctx.sample({"stage": "C", "op": "blockdeser", "n_txs": len(b["txs"]), "first_txid": bytes(b["txs"][0]["txid"]).hex() if b["txs"] else None})
+
+
+# ----------------------------------------------------------------------------- mine_block with a scripted RPC
+def _mine_cases(ctx):
+    rnd = random.Random(ctx.seed * 15485863 + 77)
+    quick = ctx.tier == "quick"
+    heights = [0, 15, 16, 127, 148, 149, 299, 9599, 209999, 32767] if not quick else [0, 149, 16, 209999]
+    cases = []
+    for h in heights:
+        for regtest in ((True, False) if not quick else (h != 209999,)):
+            for variant in (("legacy", "segwit", "mixed", "empty", "f7") if not quick else (rnd.choice(["segwit", "mixed"]),)):
+                n = 0 if variant == "empty" else rnd.choice([1, 2, 3, 4, 5, 7, 12])
+                kinds = {"legacy": ["legacy"], "segwit": ["segwit"], "mixed": ["legacy", "segwit"], "empty": [], "f7": ["segwit", "f7"]}[variant]
+                txs = [_gen_tx(rnd, rnd.choice(kinds)) for _ in range(n)]
+                if variant == "f7" and txs:
+                    txs[0] = _gen_tx(rnd, "f7")
+                cases.append({"height": h, "regtest": regtest, "mempool": [J(t[0]) for t in txs], "kinds": [t[1] for t in txs],
+                              "h160": [rnd.randrange(256) for _ in range(20)], "tip_time": 1700000000 + rnd.randrange(10 ** 6)})
+    return cases
+
+
+def _run_mine(ctx, cases):
+    """Drive bits.integrations.mine_block with a scripted bits.rpc.rpc_method; return the events for Trace_Block."""
+    import bits
+    import bits.integrations as integ
+    import bits.rpc
+
+    out = []
+    for c in cases:
+        raws = [bytes(r) for r in c["mempool"]]
+        ids = [hashlib.sha256(b"mempool" + r).hexdigest() for r in raws]      # opaque handles of the scripted node
+        by_id = dict(zip(ids, raws))
+        hashes = {}
+
+        def block_hash(n):
+            return hashlib.sha256(f"tip{c['height']}:{n}".encode()).hexdigest()
+
+        submitted = []
+
+        def rpc(method, *params, **kw):
+            if method == "getdifficulty":
+                return 4.656542373906925e-10 if c["regtest"] else 1.0
+            if method == "getblockcount":
+                return c["height"]
+            if method == "getblockhash":
+                hashes[block_hash(int(params[0]))] = int(params[0])
+                return block_hash(int(params[0]))
+            if method == "getblock":
+                n = hashes.get(params[0], c["height"])
+                return {"hash": params[0], "time": c["tip_time"] - 600 * (c["height"] - n), "bits": "207fffff", "height": n}
+            if method == "getrawmempool":
+                return list(ids)
+            if method == "getrawtransaction":
+                return by_id[params[0]].hex()
+            if method == "submitblock":
+                submitted.append(params[0])
+                return None
+            raise KeyError(method)
+
+        class _Clock:
+            @staticmethod
+            def time():
+                return c["tip_time"] + 1234
+
+        addr = bits.to_bitcoin_address(bytes(c["h160"]), addr_type="p2pkh", network="regtest" if c["regtest"] else "mainnet")
+        spk = b"\x76\xa9\x14" + bytes(c["h160"]) + b"\x88\xac"
+        real_rpc, real_time = bits.rpc.rpc_method, integ.time
+        bits.rpc.rpc_method, integ.time = rpc, _Clock
+        try:
+            res = run_call(integ.mine_block, addr, rpc_url="scripted")
+        finally:
+            bits.rpc.rpc_method, integ.time = real_rpc, real_time
+        ok = "ok" in res and len(submitted) == 1
+        try:
+            block = J(bytes.fromhex(submitted[0])) if ok else []
+        except (TypeError, ValueError):
+            ok, block = False, []
+        ev = {"op": "mined", "height": c["height"], "prev": J(bytes.fromhex(block_hash(c["height"]))[::-1]),
+              "bits": J(bytes.fromhex("207fffff")[::-1]), "spk": J(spk), "regtest": c["regtest"], "mempool": c["mempool"],
+              "ok": ok, "block": block}
+        case = dict(c, n_mempool=len(raws), has_segwit=any(k != "legacy" for k in c["kinds"]),
+                    f7_segwit_nondefault_sequence="f7" in c["kinds"])
+        out.append({"event": ev, "case": case, "exc": res.get("err")})
+    return out
+
+
 # ----------------------------------------------------------------------------- run / replay
 def run(ctx):
     ctx.rule = ("stage A: every N / height chunk / layout case of the bounded models; stage B: every TLC-emitted row; stage C: "
@@ -444,21 +810,30 @@ def run(ctx):
                        "(mine_block passes HASH256(witness root ++ reserved value), which the mine_block check verifies)",
                        "txids are handled in internal byte order, as bits.tx.txid returns them"]
     vlib.native_selftest()
-    _stage_a_merkle(ctx)
-    _stage_a_coinbase(ctx)
-    _stage_b_merkle(ctx)
-    _stage_b_coinbase(ctx)
+    res, dense = _launch_models(ctx)
+    _stage_a_merkle(ctx, res)
+    _stage_a_coinbase(ctx, res)
+    _stage_a_block(ctx, res)
+    _stage_b_merkle(ctx, res["gen_merkle"])
+    _stage_b_coinbase(ctx, res["gen_coinbase"], dense)
     _coinbase_selftest(ctx)
     _run_merkle(ctx, _merkle_events(ctx))
     _run_coinbase(ctx, _coinbase_events(ctx))
+    _run_block(ctx, _block_events(ctx), mined=_run_mine(ctx, _mine_cases(ctx)))
 
 
 def replay(ctx, path):
     doc = json.load(open(path))
     ctx.rule = "replay of recorded failing cases"
-    mk, cb = [], []
+    mk, cb, bl, mined = [], [], [], []
     for c in doc["cases"]:
         c = c["case"]
+        if c["op"] == "hdr":
+            bl.append({"op": "hdr", "f": c["f"]})
+        elif c["op"] == "block":
+            bl.append({"op": "block", "f": c["f"], "raws": c["raws"], "kinds": c["kinds"], "special": c["special"]})
+        elif c["op"] == "mined":
+            mined.append({k: c[k] for k in ("height", "regtest", "mempool", "kinds", "h160", "tip_time")})
         if c["op"] == "merkle":
             mk.append({"op": "merkle", "n": c["n"], "tseed": c["tseed"], "mode": c["mode"]})
         elif c["op"] in ("cbin", "cbtx"):
@@ -469,3 +844,5 @@ def replay(ctx, path):
         _run_merkle(ctx, mk)
     if cb:
         _run_coinbase(ctx, cb, selftest=False)
+    if bl or mined:
+        _run_block(ctx, bl, selftest=False, mined=_run_mine(ctx, mined))
